@@ -330,6 +330,8 @@ type InstCmpXchg struct {
 	Volatile bool
 	// (optional) Sync scope; empty if not present.
 	SyncScope string
+	// (optional) Alignment; zero if not present.
+	Align Align
 	// (optional) Metadata.
 	Metadata
 }
@@ -380,6 +382,9 @@ func (inst *InstCmpXchg) LLString() string {
 	}
 	fmt.Fprintf(buf, " %s", inst.SuccessOrdering)
 	fmt.Fprintf(buf, " %s", inst.FailureOrdering)
+	if inst.Align != 0 {
+		fmt.Fprintf(buf, ", %s", inst.Align)
+	}
 	for _, md := range inst.Metadata {
 		fmt.Fprintf(buf, ", %s", md)
 	}
@@ -414,6 +419,8 @@ type InstAtomicRMW struct {
 	Volatile bool
 	// (optional) Sync scope; empty if not present.
 	SyncScope string
+	// (optional) Alignment; zero if not present.
+	Align Align
 	// (optional) Metadata.
 	Metadata
 }
@@ -460,6 +467,9 @@ func (inst *InstAtomicRMW) LLString() string {
 		fmt.Fprintf(buf, " syncscope(%s)", quote(inst.SyncScope))
 	}
 	fmt.Fprintf(buf, " %s", inst.Ordering)
+	if inst.Align != 0 {
+		fmt.Fprintf(buf, ", %s", inst.Align)
+	}
 	for _, md := range inst.Metadata {
 		fmt.Fprintf(buf, ", %s", md)
 	}
